@@ -66,10 +66,10 @@ func (o *simpleAccessController) GetAuthorizedByRole(role string) ([]string, err
 	return o.allowedKeys[role], nil
 }
 
-func (o *simpleAccessController) CanAppend(e logac.LogEntry, _ identityprovider.Interface, _ accesscontroller.CanAppendAdditionalContext) error {
+func (o *simpleAccessController) CanAppend(e logac.LogEntry, p identityprovider.Interface, _ accesscontroller.CanAppendAdditionalContext) error {
 	for _, id := range o.allowedKeys["write"] {
 		if e.GetIdentity().ID == id || id == "*" {
-			return accesscontroller.VerifyEntryAuthor(e)
+			return accesscontroller.VerifyEntryAuthor(e, p)
 		}
 	}
 
